@@ -278,3 +278,22 @@ Qed.
 (* the overlay never goes onto the caller's own map (the repair e288ca8) *)
 Definition no_in_place (rows : list row) : bool :=
   forallb (fun r => negb (rval_eqb (a_val (snd r)) ROverlayInPlace)) rows.
+
+(* the environments on which a table does not decide as the model does, with what it decides
+   there (None: no path or several paths taken, or a condition that cannot be interpreted) and
+   what the model decides — stated as "this list is empty" so that a failing obligation SHOWS
+   the environments and the two decisions *)
+Definition table_diffs (rows : list row) : list (renv * option raction * raction) :=
+  flat_map (fun e =>
+    match decide e rows with
+    | Some a => if raction_eqb a (model_decision e) then [] else [(e, Some a, model_decision e)]
+    | None => [(e, None, model_decision e)]
+    end) all_envs.
+
+Lemma table_diffs_ok : forall rows, table_diffs rows = [] -> table_ok rows = true.
+Proof.
+  intros rows. unfold table_diffs, table_ok. induction all_envs as [|e l IH]; intros H; [reflexivity|].
+  simpl in H |- *. apply app_eq_nil in H. destruct H as [H1 H2].
+  destruct (decide e rows) as [a|]; [|discriminate].
+  destruct (raction_eqb a (model_decision e)); [|discriminate]. simpl. now apply IH.
+Qed.
